@@ -692,7 +692,20 @@ class AbsInt:
         elif isinstance(st, ast.AugAssign):
             cur = self.ev(st.target, env, m)
             v = self.ev(st.value, env, m)
-            self.assign(st.target, self.binop(st.op, cur, v, st), env, m)
+            from .fold import _INPLACE
+            if isinstance(cur, (set, list, dict, bytearray)) and type(st.op) in _INPLACE and _is_concrete(v):
+                # in-place update of a mutable container: the object changes, whoever else holds it sees the change
+                try:
+                    res = _INPLACE[type(st.op)](cur, v)
+                except TypeError:
+                    raise AbsRaise('TypeError', st, implicit=True)
+                self.assign(st.target, res, env, m)
+            elif isinstance(cur, AList) and cur.kind in ('list', 'bytearray') and isinstance(st.op, ast.Add) \
+                    and not isinstance(st.target, ast.Attribute):
+                cur.items.extend(self.iterate(v, st, keep_vars=True))
+                self.assign(st.target, cur, env, m)
+            else:
+                self.assign(st.target, self.binop(st.op, cur, v, st), env, m)
         elif isinstance(st, ast.If):
             if self.truth(self.ev(st.test, env, m), st.test):
                 self.ex_block(st.body, env, m)
